@@ -86,7 +86,10 @@ func NewSigner(alg Algorithm, key crypto.Signer) (Signer, error) {
 			signer: key,
 		}, nil
 	case AlgorithmEdDSA:
-		if _, ok := key.Public().(ed25519.PublicKey); !ok {
+		if sk, ok := key.(ed25519.PrivateKey); ok && len(sk) != ed25519.PrivateKeySize {
+			return nil, fmt.Errorf("%v: %w", alg, ErrInvalidPubKey)
+		}
+		if vk, ok := key.Public().(ed25519.PublicKey); !ok || len(vk) != ed25519.PublicKeySize {
 			return nil, fmt.Errorf("%v: %w", alg, ErrInvalidPubKey)
 		}
 		return &ed25519Signer{
